@@ -149,6 +149,14 @@ func (x *XSpec) Main() {
 		root := r(nil)
 		st.Executions, st.Points, st.MaxPoints = 1, int64(len(root.Points)), len(root.Points)
 		v(sched.Choices(root), root)
+		if len(x.Scenarios) <= 12 || sc == x.Scenarios[0] {
+			w := Run(sc, nil, true)
+			tr := w.Trace
+			if len(tr) > 40 {
+				tr = append(append([]string{}, tr[:40]...), fmt.Sprintf("... (%d steps in all)", len(w.Trace)))
+			}
+			run.Sample(map[string]any{"scenario": sc.Name, "choices": sched.Choices(root), "schedule": "default (all choices 0)", "steps": tr, "observation": w.Observation()})
+		}
 		// determinism of the default schedule
 		o1 := Run(sc, nil, false).Observation()
 		if o2 := Run(sc, nil, false).Observation(); o1 != o2 {
